@@ -9,6 +9,7 @@ mod area_lv;
 mod area_mac;
 mod area_misc;
 mod area_num;
+mod area_numfmt;
 mod area_str;
 mod area_vm;
 mod text;
@@ -25,6 +26,8 @@ fn run_case(c: &[String]) -> String {
         3 => text::highlight_check_case(c[1].parse().unwrap(), &cps(&c[2..])),
         4 => text::parse_text_case(&cps(&c[1..])),
         5 => text::parse_all_case(&cps(&c[1..])),
+        6 => text::parse_text_case(&cps(&c[2..])),
+        20..=29 => area_numfmt::run(c),
         10..=29 => area_num::run(c),
         30..=39 => area_str::run(c),
         40..=49 => area_lv::run(c),
